@@ -123,6 +123,7 @@ structure Acct where
   bk : Nat
   heightHint : Nat
   latestTx : Option Tx
+  secret : Nat := 0        -- Account.Secret (what the signer's DeriveSharedKey returned when it was set)
 deriving DecidableEq, Repr, Inhabited
 
 /-- `Version.ScriptVersion()` -/
@@ -169,6 +170,7 @@ structure AState where
   nextReg : Nat := 0
   wallet : List Tx := []
   trace : List Effect := []
+  signerSecret : Nat := 0  -- Signer.DeriveSharedKey(auctioneer key, trader key locator) of this account
 deriving Repr
 
 def AState.init (key : Nat) : AState := { key := key }
@@ -432,7 +434,8 @@ def bump (s : AState) : AState × Res :=
 /-- `InitAccount` (parameters already validated by `validateAccountParams`) -/
 def initAccount (s : AState) (value expiry version height : Nat) (fundTx : Option (Nat × Nat)) : AState × Res :=
   let a : Acct := { state := .initiated, outpoint := ⟨0, 0⟩, value := value, expiry := expiry,
-                    version := version, bk := 0, heightHint := height, latestTx := none }
+                    version := version, bk := 0, heightHint := height, latestTx := none,
+                    secret := s.signerSecret }
   resume (write s a) a false false true fundTx
 
 /-! ## batches -/
@@ -530,6 +533,8 @@ inductive Op where
   | conf (pos height : Nat)              -- deliver on the live conf registration #pos
   | confDirect (height : Nat)            -- stale / racing notification: handler called directly
   | spend (pos : Nat) (k : SpendKind) (height : Nat)
+  | consumeSpend (pos : Nat)                   -- the live spend registration #pos fires (its goroutine takes the event)
+  | spendH (t : Tx) (height : Nat)             -- … and runs HandleAccountSpend with the reported transaction
   | spendDirect (k : SpendKind) (height : Nat)
   | block (h : Nat)                      -- expiryWatcher.NewBlock(h)
   | expiryDirect
@@ -565,6 +570,13 @@ def step (s : AState) : Op → AState × Res
         let s := { s with w := { s.w with spendRegs := s.w.spendRegs.filter (fun x => x.id != r.id) } }
         let r := handleSpend s t h
         ({ r.1 with w := { r.1.w with spendMap := none } }, r.2)
+  | .consumeSpend pos =>
+    match s.w.spendRegs[pos]? with
+    | none => (s, .err)
+    | some r => ({ s with w := { s.w with spendRegs := s.w.spendRegs.filter (fun x => x.id != r.id) } }, .ok)
+  | .spendH t h =>
+    let r := handleSpend s t h
+    ({ r.1 with w := { r.1.w with spendMap := none } }, r.2)
   | .spendDirect k h =>
     match spendTx s k (s.acct.map (·.outpoint) |>.getD ⟨0, 0⟩) with
     | none => (s, .err)
@@ -586,8 +598,10 @@ def step (s : AState) : Op → AState × Res
     | none => (s, .ok)
     | some a => resume s a true false feeOk f
   | .recover a known =>
-    -- RecoverAccount: AddAccount, resumeAccount(onRecovery)
+    -- RecoverAccount: DeriveSharedKey (the reported record carries no secret), AddAccount,
+    -- resumeAccount(onRecovery)
     let s := { s with wallet := known }
+    let a := { a with secret := s.signerSecret }
     resume (write s a) a false true false none
 
 def run (s : AState) : List Op → AState
